@@ -16,6 +16,7 @@ SPEC = {
         "store to / take of RawCommunicator::{stdout,stderr} outside the constructor; (f) a successful return below "
         "the limit happens only through the all-streams-retired exit (C01), so all-empty with n >= 1 implies EOF "
         "everywhere; (g) the limit is re-read from the field on each call and limit_size stores its argument."
+        " Thorough tier, windows: grow_result says stop exactly under total >= limit (before and after the append), parks the excess in `leftover`, and read_into obeys both answers."
     ),
     "not_decided": "concatenation equality as a value property; kernel buffering.",
     "trusted_base": ["rustc MIR", "Read::read(buf) returns n <= buf.len()", "slice indexing [0..e] yields length e",
